@@ -54,6 +54,7 @@ def cases(tier):
     for i in range(0, len(cs), 30):
         out.append({"kind": "shape", "name": "gradshape/%d" % i, "c02": cs[i:i + 30]})
     out.append({"kind": "dtype", "name": "dtype-lane"})
+    out.append({"kind": "reshape-after", "name": "shape-assigned-after-backward"})
     return out
 
 
@@ -284,10 +285,63 @@ print("REPRODUCED"); sys.exit(1)
     return res
 
 
+# ------------------------------------------------------------------ gradient shape after in-place re-shaping of a tensor that holds a gradient
+RESHAPE_AFTER = [("x.shape = (2, 3)", (6,)), ("x.shape = (6,)", (2, 3)), ("x.shape = (3, 2)", (2, 3)), ("x.shape = (1, 6)", (6,)), ("x.shape = (6, 1)", (2, 3))]
+RESHAPE_REPLAY = """import sys
+import numpy as np
+import mygrad as mg
+bad = []
+for stmt, shape in %r:
+    for kind in ("leaf", "intermediate-kept"):
+        x = mg.Tensor(np.arange(6.0).reshape(shape)) if kind == "leaf" else mg.Tensor(np.arange(6.0).reshape(shape)) * 1.0
+        (x * x).sum().backward()
+        exec(stmt)
+        for name, t in (("x", x), ("x[0]", x[0]), ("x.T", x.T)):
+            g = t.grad
+            if g is not None and (type(g) is not np.ndarray or g.shape != t.shape): bad.append((stmt, kind, name, np.shape(g), t.shape))
+print(bad)
+print('REPRODUCED' if bad else 'NOT-REPRODUCED'); sys.exit(1 if bad else 0)
+"""
+
+
+def run_reshape_after(spec, tier, mg):
+    res = common.new_result()
+    findings = []
+    for stmt, shape in RESHAPE_AFTER:
+        for kind in ("leaf", "intermediate-kept"):
+            lib.reset_state()
+            x = mg.Tensor(symarr("x", shape)) if kind == "leaf" else mg.Tensor(symarr("x", shape)) * 1.0
+            (x * x).sum().backward()
+            exec(stmt, {"x": x})
+            res["paths"] += 1
+            for name, t in (("x", x), ("x[0]", x[0]), ("x.T", x.T)):
+                try:
+                    g = t.grad
+                except Exception as e:  # noqa
+                    findings.append("`%s` on a %s holding a gradient: reading %s.grad raises %s" % (stmt, kind, name, type(e).__name__))
+                    continue
+                if g is not None and (type(g) is not np.ndarray or g.shape != t.shape):
+                    findings.append("`%s` on a %s holding a gradient: %s.grad has shape %s, the tensor has %s" % (stmt, kind, name, np.shape(g), t.shape))
+    lib.reset_state()
+    if findings:
+        path = common.write_replay(PROP, "reshape_after_backward", RESHAPE_REPLAY % (RESHAPE_AFTER,))
+        ok, out = common.run_replay(path)
+        if ok:
+            res["status"] = common.VIOLATION
+            res["violations"].append({"signature": "grad-shape-after-shape-assign", "replay": path, "summary": "; ".join(findings[:2])})
+        else:
+            res["status"] = common.INCONCLUSIVE
+            res["notes"].append("did not reproduce: %s" % findings[:2])
+    res["sample"] = {"statements": [s for s, _ in RESHAPE_AFTER]}
+    return res
+
+
 def run_case(spec, tier):
     mg = common._WORKER["mg"]
     if spec["kind"] == "seed":
         return run_seed(spec, tier, mg)
+    if spec["kind"] == "reshape-after":
+        return run_reshape_after(spec, tier, mg)
     if spec["kind"] == "shape":
         return run_shape(spec, tier, mg)
     return run_dtype(spec, tier, mg)
